@@ -87,6 +87,7 @@ def create_stub_files(
     out_path: Path,
 ) -> None:
     naming_convention = stubs_generator.naming_convention
+    created_module_paths: set[str] = set()
     # A "package module" is a module which is created though the reexported classes and functions in the __init__.py
     for module_dir, module_name, module_text, is_package_module in stubs_data:
         if is_package_module:
@@ -110,7 +111,10 @@ def create_stub_files(
         with file_path.open("w", encoding="utf-8") as f:
             f.write(module_text)
 
-    created_module_paths: set[str] = set()
+        # Classes which are treated as classes from outside the package must not replace this file, they are added to it
+        if corrected_module_dir.name == public_module_name:
+            created_module_paths.add(corrected_module_dir.relative_to(out_path).as_posix())
+
     classes_outside_package = list(stubs_generator.classes_outside_package)
     classes_outside_package.sort()
     for class_ in classes_outside_package:
